@@ -26,6 +26,10 @@ CLAIMED = {
          'For XPath 2.0/3.0/3.1 every tree derivable by the EBNF precedence/associativity rules over 30 binary operators, prefix +/- and parentheses is exactly what the Pratt loop returns for its token sequence (all trees, unbounded size); the table (lbp, led rbp, nud rbp, non-associativity conflicts) is re-probed from /repo on every run, so a changed binding power breaks table_okb. XPath 1.0 grouping and the completeness of the non-associativity checks are refuted by kernel-checked witnesses (known findings). Partial: lexer, whitespace/comments, .source round trip and hash-seed independence are checked by correspondence/observation (with the alternation-disjointness hypothesis measured), value equality is not modelled; path operators / and // belong to C01.',
          'Trusted: Coq kernel; gen_c04.py probing (stub parser.expression); C04/Spec.v transcription of the W3C EBNF levels. No axioms.',
          'DESIGN.md §6 C04'),
+ 'C03': ('Coq proof of the parser-instance state machine (try/finally reset, flag discipline) and of termination of the Pratt core and of the nested-comment loop; T-data ties the try/finally structure to the AST each run; history correspondence; foreign-exception and hang exploration in watchdogged sub-processes',
+         'PARTIAL. Proved for all histories: after any parse (success or failure at any point) the cursor is fresh and the next parse behaves as on a fresh instance; parse_arguments is restored whatever fails inside a => operand; the Pratt loop never runs out of fuel (no hang) for any token list and table; nested comments are skipped exactly (Dyck words) and an unterminated one is an error. Not provable here: that no foreign exception escapes from the ~250 unmodelled function implementations - that half is exploration (token mutants, random strings, full typed-operand cross product, histories), with 7 known findings identified by exception type and raising function.',
+         'Trusted: Coq kernel; gen_c03.py AST facts; the abstraction of instance state to the fields a later parse reads; sub-process watchdog. No axioms.',
+         'DESIGN.md §6 C03'),
 }
 
 NOT_YET = {}
